@@ -2,6 +2,11 @@ use std::{cell::Cell, marker::PhantomData, ptr::NonNull};
 
 mod cell;
 use self::cell::RecorderOnceCell;
+#[cfg(metrics_verif)]
+#[allow(missing_docs)]
+pub mod verif_cell {
+    pub use super::cell::RecorderOnceCell;
+}
 
 mod errors;
 pub use self::errors::SetRecorderError;
